@@ -71,7 +71,7 @@ func checkWireIdentifiers(c *fw.Ctx, r *reqEnv, tag string) {
 		f   *simEnv
 		ids map[uint32]bool
 	}
-	var icmps, syns []idset
+	var icmps, syns, paris []idset
 	for _, f := range flows {
 		fl := f.flow()
 		s := idset{f: f, ids: map[uint32]bool{}}
@@ -81,6 +81,11 @@ func checkWireIdentifiers(c *fw.Ctx, r *reqEnv, tag string) {
 			icmps = append(icmps, s)
 		case "syn":
 			if f.spec.V.Paris {
+				// Paris mode: the per-probe identifier is a random 32-bit sequence number
+				for _, p := range fl.Probes {
+					s.ids[p.Seq] = true
+				}
+				paris = append(paris, s)
 				continue
 			}
 			for _, p := range fl.Probes {
@@ -105,6 +110,22 @@ func checkWireIdentifiers(c *fw.Ctx, r *reqEnv, tag string) {
 	}
 	cmp("echo-id", icmps)
 	cmp("ip-id", syns)
+	// random identifiers: one shared value in ~10^3 pairs has probability ~2e-7, two shared values are not chance
+	for i := 0; i < len(paris); i++ {
+		for j := i + 1; j < len(paris); j++ {
+			shared := 0
+			for id := range paris[i].ids {
+				if paris[j].ids[id] {
+					shared++
+				}
+			}
+			c.Count("identifier_pairs_checked", 1)
+			if shared >= 2 {
+				c.Violate("C11", "identifier-overlap/paris-seq", fmt.Sprintf("%s: Paris-mode flows %d and %d (live at the same time) share %d of their per-probe sequence numbers", tag, paris[i].f.handle.Idx, paris[j].f.handle.Idx, shared), nil)
+				return
+			}
+		}
+	}
 }
 
 func checkC11() fw.Check {
@@ -162,6 +183,7 @@ func runC11Multi(c *fw.Ctx, id string) {
 	}
 	var specs []drive.Spec
 	groupWin := map[string]window{}
+	groupParis := map[string]bool{}
 	for i := 0; i < k; i++ {
 		var vn string
 		switch mix {
@@ -186,8 +208,17 @@ func runC11Multi(c *fw.Ctx, id string) {
 		// all runs of one (protocol, family, target) group share a TTL window, like the runs of one request;
 		// a run is either the full window or an end-to-end style single probe at its last TTL
 		gk := fmt.Sprintf("%s/%v/%d", v.Proto, v.V6, tw)
-		if v.Paris {
-			v = refmatch.VariantByName("syn") // one TCP SYN mode per target group (a handle cannot be told apart by its first probe)
+		if v.Proto == "syn" {
+			// one TCP SYN mode per target group (a handle cannot be told apart by its first probe): the first flow of
+			// the group decides whether the whole group runs in Paris mode
+			if _, ok := groupParis[gk]; !ok {
+				groupParis[gk] = v.Paris
+			}
+			if groupParis[gk] {
+				v = refmatch.VariantByName("synP")
+			} else {
+				v = refmatch.VariantByName("syn")
+			}
 		}
 		gw, ok := groupWin[gk]
 		if !ok {
